@@ -592,6 +592,6 @@ H("C03", "srp_internal_client", "c03_a_client_twice", timeout=2400, oracle_featu
   inputs="two arbitrary groups (g1, N1), (g2, N2) and private keys, used one after the other in one process", asserts="the second key is g2^a2 mod N2 (no state lingers from the first group)",
   bounds="history of two calls", assumes=[BIG_ASSUME])
 H("C09", "wrath_header::inner_crypto", "c09_inner_stream", timeout=2400, oracle_features=["cap64", "q4"], encodes=["InnerCrypto::new", "InnerCrypto::apply", "Rc4::apply_keystream"],
-  inputs="session key, direction constant, 263 data bytes: any; RC4 key schedule replaced by a fixed concrete permutation",
-  asserts="calls of 250, 10 and 3 bytes after construction produce data XOR keystream bytes 1024..1287 of the textbook PRGA from that state",
-  bounds="concrete cipher state; 1024 + 263 keystream bytes; unwind 1030", assumes=["Rc4::new replaced by a constant state in this harness (the key schedule is c09_ksa_concrete / c09_wiring)"])
+  inputs="session key, direction constant, 263 data bytes, 256 pad bytes: any",
+  asserts="calls of 250, 10 and 3 bytes after construction consume keystream bytes number 1024..1287, each once and in order",
+  bounds="three calls; unwind 1030", assumes=["RC4 abstracted as a position-indexed pad in this harness (Rc4::new / apply_keystream stubbed); RC4 itself is c09_prga_step / c09_apply_*"])
